@@ -154,6 +154,15 @@ class CFG:
                     hs.add(s)
         return hs
 
+    def in_loop(self, bid):
+        """bid lies in some natural loop of the body."""
+        if getattr(self, '_loop_blocks', None) is None:
+            lb = set()
+            for h in self.loop_headers():
+                lb |= self.natural_loop(h)
+            self._loop_blocks = lb
+        return bid in self._loop_blocks
+
     def natural_loop(self, header):
         """Blocks of the natural loop(s) with this header."""
         dom = self.dominators()
